@@ -297,3 +297,161 @@ def rule_own(ctx) -> RuleResult:
 
 
 RULES = [rule_schema, rule_fetchkey, rule_lazy, rule_pgw, rule_own]
+
+
+def _must_call(fn, pred, starts=None, var=None, facts=None):
+    """Every normal path of fn (from `starts` or the entry) passes a node satisfying pred."""
+    g = CFG(fn.node)
+    st = starts(g) if starts else [g.entry]
+    return g.exit not in reach(g, st, var, facts or {}, avoid=lambda n: has_call(n, pred)), g
+
+
+def _fold_str(expr, value):
+    """Evaluate a chain of str methods (replace / lower / capitalize / upper) applied to a name, for a constant value."""
+    if isinstance(expr, ast.Name):
+        return value
+    if isinstance(expr, ast.Call) and isinstance(expr.func, ast.Attribute):
+        base = _fold_str(expr.func.value, value)
+        if base is None:
+            return None
+        args = [a.value for a in expr.args if isinstance(a, ast.Constant)]
+        if len(args) != len(expr.args):
+            return None
+        if expr.func.attr in ("replace", "lower", "upper", "capitalize", "strip"):
+            return getattr(base, expr.func.attr)(*args)
+    return None
+
+
+def rule_flow(ctx) -> RuleResult:
+    res = RuleResult(
+        "C01.FLOW",
+        "C01",
+        "the save and load paths pass through every stage: creation saves the entity with its children and links it to its "
+        "parent; write_properties writes the attributes and every KEY_MAP dataset that is set; close() re-saves the root "
+        "subtree; open() rebuilds the whole tree from Root (recursively, groups and objects, with property groups), and the "
+        "reader lists every child container and maps its name to a loadable kind",
+        floor=14,
+    )
+    p = ctx.p
+    ws = p.cls("Workspace")
+    W = p.cls("H5Writer")
+    R = p.cls("H5Reader")
+
+    def chk(ok, inst, cls, member, construct, where, msg, nontrivial=True):
+        res.inst(inst, nontrivial=nontrivial, ok=ok)
+        if not ok:
+            res.find(cls, member, construct, where, msg)
+
+    # --- save side
+    ce = ws.methods["create_entity"]
+    saves = [i for i in ast.walk(ce.node) if isinstance(i, ast.If) and "save_on_creation" in unparse(i.test)]
+    ok = bool(saves) and all(any("self.save_entity(created_entity" in unparse(s) for s in i.body) for i in saves)
+    conj = {unparse(v) for v in saves[0].test.values} if saves and isinstance(saves[0].test, ast.BoolOp) else set()
+    ok = ok and conj == {"created_entity is not None", "save_on_creation", "self.h5file is not None"}
+    chk(ok, f"create_entity saves the created entity under {sorted(conj)}", "Workspace", "create_entity", "creation does not save the entity (or only conditionally)", ce.where,
+        "a created entity is not written to the file at creation: it exists in memory only until something else saves it")
+    se = ws.methods["save_entity"]
+    ok = any(isinstance(c, ast.Call) and unparse(c.func) == "self._io_call" and c.args and unparse(c.args[0]) == "H5Writer.save_entity" and unparse(c.args[1]) == se.params[1]
+             and any(k.arg == "add_children" and unparse(k.value) == se.params[2] for k in c.keywords) for c in ast.walk(se.node))
+    chk(ok, "Workspace.save_entity forwards (entity, add_children) to H5Writer.save_entity", "Workspace", "save_entity", "does not forward to H5Writer.save_entity", se.where,
+        "saving an entity does not reach the writer")
+    hs = W.methods["save_entity"]
+    hent = hs.params[2]
+    ok1, _ = _must_call(hs, lambda c: unparse(c.func).endswith("write_entity") and len(c.args) > 1 and unparse(c.args[1]) == hent)
+    ok2, _ = _must_call(hs, lambda c: unparse(c.func).endswith("write_to_parent") and len(c.args) > 1 and unparse(c.args[1]) == hent)
+    chk(ok1 and ok2, "H5Writer.save_entity: write_entity(entity) and write_to_parent(entity) on every path", "H5Writer", "save_entity", "a path skips write_entity / write_to_parent", hs.where,
+        "a saved entity is not stored or not linked under its parent")
+    loops = [lp for lp in ast.walk(hs.node) if isinstance(lp, ast.For) and unparse(lp.iter) == f"{hent}.children"]
+    ok = bool(loops) and any(isinstance(c, ast.Call) and unparse(c.func).endswith("save_entity") and len(c.args) > 1 and unparse(c.args[1]) == unparse(lp.target)
+                             for lp in loops for c in ast.walk(lp))
+    guard = next((i for i in ast.walk(hs.node) if isinstance(i, ast.If) and loops and any(lp in i.body for lp in loops)), None)
+    gconj = {unparse(v) for v in guard.test.values} if guard is not None and isinstance(guard.test, ast.BoolOp) else set()
+    ok = ok and gconj == {hs.params[4] if len(hs.params) > 4 else "add_children", f"not isinstance({hent}, Concatenator)", f"hasattr({hent}, 'children')"}
+    inner = [unparse(i.test) for lp in loops for i in lp.body if isinstance(i, ast.If)]
+    ok = ok and inner == [f"not isinstance({unparse(loops[0].target)}, PropertyGroup)"] if loops else False
+    chk(ok, f"H5Writer.save_entity saves every non-property-group child under {sorted(gconj)}", "H5Writer", "save_entity", "children are not all saved", hs.where,
+        "children of a saved entity (close() saves the root with add_children) are skipped: they never reach the file")
+    wp = W.methods["write_properties"]
+    ok = any(isinstance(c, ast.Call) and unparse(c.func).endswith("update_field") and len(c.args) > 2 and unparse(c.args[2]) == "'attributes'" for c in ast.walk(wp.node))
+    lp = next((x for x in ast.walk(wp.node) if isinstance(x, ast.For) and unparse(x.iter) == "KEY_MAP"), None)
+    ok = ok and lp is not None and any(isinstance(i, ast.If) and unparse(i.test) == f"getattr(entity, {unparse(lp.target)}, None) is not None"
+                                       and any("update_field" in unparse(s) and unparse(lp.target) in unparse(s) for s in i.body) for i in lp.body)
+    chk(ok, "write_properties: 'attributes' then every KEY_MAP attribute that is not None", "H5Writer", "write_properties", "not every set attribute is written at creation", wp.where,
+        "a new entity is stored without some of its datasets / attributes")
+    cl = ws.methods["close"]
+    ok = any(isinstance(c, ast.Call) and unparse(c.func) == "self._io_call" and c.args and unparse(c.args[0]) == "H5Writer.save_entity" and unparse(c.args[1]) == "self.root"
+             and any(k.arg == "add_children" and unparse(k.value) == "True" for k in c.keywords) for c in ast.walk(cl.node))
+    chk(ok, "close(): _io_call(H5Writer.save_entity, self.root, add_children=True)", "Workspace", "close", "final save of the root subtree changed", cl.where,
+        "entities created with save_on_creation=False or moved under a new parent are not written at close")
+    # --- load side
+    init = ws.methods["__init__"]
+    last = init.node.body[-1]
+    ok = isinstance(last, ast.Expr) and unparse(last.value) == "self.open()"
+    chk(ok, "Workspace.__init__ ends with self.open()", "Workspace", "__init__", "constructor does not open the file", init.where, "a new Workspace object shows an empty tree", False)
+    op = ws.methods["open"]
+    ok, g = _must_call(op, lambda c: unparse(c.func) == "self.fetch_or_create_root",
+                       starts=lambda g: [m for n in g.nodes if n.kind == "test" and "already" not in unparse(n.ast) and "isinstance(self._geoh5, h5py.File)" in unparse(n.ast) for m, l in n.succ if l == "false"] or [g.entry])
+    chk(ok, "open(): every path that opens the file calls fetch_or_create_root()", "Workspace", "open", "a path opens the file without loading the tree", op.where,
+        "after re-opening, the workspace lists no entities")
+    fr = ws.methods["fetch_or_create_root"]
+    ok = any(isinstance(c, ast.Call) and unparse(c.func) == "self.fetch_children" and unparse(c.args[0]) == "self._root" and any(k.arg == "recursively" and unparse(k.value) == "True" for k in c.keywords)
+             for c in ast.walk(fr.node))
+    chk(ok, "fetch_or_create_root: fetch_children(self._root, recursively=True)", "Workspace", "fetch_or_create_root", "the tree is not loaded recursively from Root", fr.where,
+        "only the first level (or nothing) is loaded on open")
+    fc = ws.methods["fetch_children"]
+    ent_p, rec_p = fc.params[1], fc.params[2]
+    loop = next((x for x in ast.walk(fc.node) if isinstance(x, ast.For) and isinstance(x.target, ast.Tuple) and isinstance(x.iter, ast.Call)
+                 and isinstance(x.iter.func, ast.Attribute) and x.iter.func.attr == "items" and any("load_entity" in unparse(s_) for s_ in x.body)), None)
+    if loop is None:
+        raise AnalysisError("Workspace.fetch_children: loop over the listed children not found")
+    uid_v, type_v = [unparse(e) for e in loop.target.elts]
+    loads = [c for c in ast.walk(loop) if isinstance(c, ast.Call) and unparse(c.func) == "self.load_entity"]
+    ok = bool(loads) and all([unparse(a) for a in c.args[:2]] == [uid_v, type_v] and any(k.arg == "parent" and unparse(k.value) == ent_p for k in c.keywords) for c in loads)
+    chk(ok, "fetch_children: load_entity(<uid>, <child type>, parent=<entity>) for every listed child", "Workspace", "fetch_children", "children are not loaded with their parent", fc.where,
+        "children listed in the file are not re-created under their parent")
+    rec_var = None
+    for a in ast.walk(loop):
+        if isinstance(a, ast.Assign) and any(c in list(ast.walk(a.value)) for c in loads) and isinstance(a.targets[0], ast.Name):
+            rec_var = a.targets[0].id
+    rec = [i for i in ast.walk(loop) if isinstance(i, ast.If) and any(isinstance(n, ast.Name) and n.id == rec_p for n in ast.walk(i.test))]
+    ok = False
+    if rec and rec_var:
+        t = rec[0].test
+        conj = {unparse(v) for v in t.values} if isinstance(t, ast.BoolOp) and isinstance(t.op, ast.And) else {unparse(t)}
+        ok = conj == {rec_p, f"isinstance({rec_var}, (Group, ObjectBase))"} or conj == {rec_p, f"isinstance({rec_var}, (ObjectBase, Group))"}
+        ok = ok and any(isinstance(c, ast.Call) and unparse(c.func) == "self.fetch_children" and c.args and unparse(c.args[0]) == rec_var
+                        and any(k.arg == rec_p and unparse(k.value) == "True" for k in c.keywords) for s_ in rec[0].body for c in ast.walk(s_))
+    chk(ok, "fetch_children recurses into groups AND objects", "Workspace", "fetch_children", "recursion does not cover groups and objects", fc.where,
+        "data of objects (or nested groups) are not loaded on open")
+    ok = rec_var is not None and any(isinstance(a, ast.Assign) and unparse(a.targets[0]) == f"{rec_var}.on_file" and unparse(a.value) == "True" for a in ast.walk(loop))
+    chk(ok, "fetch_children marks recovered entities on_file", "Workspace", "fetch_children", "recovered entities are not marked on_file", fc.where,
+        "setters on re-opened entities skip persistence (on_file False)")
+    le = ws.methods["load_entity"]
+    ok = any(isinstance(c, ast.Call) and unparse(c.func) == "self.create_entity" and any(k.arg == "save_on_creation" and unparse(k.value) == "False" for k in c.keywords)
+             and any(k.arg is None and "attributes[0]" in unparse(k.value) and "attributes[1]" in unparse(k.value) for k in c.keywords) for c in ast.walk(le.node))
+    chk(ok, "load_entity: create_entity(<kind>, save_on_creation=False, **entity attrs, **type attrs)", "Workspace", "load_entity", "entity not rebuilt from both attribute sets", le.where,
+        "loaded entities lose their attributes or their type")
+    pg = [i for i in ast.walk(le.node) if isinstance(i, ast.If) and "attributes[2]" in unparse(i.test)]
+    ok = bool(pg) and "isinstance(entity, ObjectBase)" in unparse(pg[0].test) and "entity.create_property_group(on_file=True, **kwargs)" in unparse(pg[0])
+    chk(ok, "load_entity re-creates every stored property group", "Workspace", "load_entity", "stored property groups are not re-created", le.where,
+        "property groups are lost on re-open")
+    bc = next((d for d in ast.walk(le.node) if isinstance(d, ast.Dict) and all(isinstance(k, ast.Constant) for k in d.keys) and len(d.keys) >= 3), None)
+    kinds = {k.value: unparse(v) for k, v in zip(bc.keys, bc.values)} if bc else {}
+    rc = R.methods["fetch_children"]
+    skip = next((x for x in ast.walk(rc.node) if isinstance(x, ast.Compare) and isinstance(x.ops[0], ast.In) and isinstance(x.comparators[0], ast.List)), None)
+    skipped = {e.value for e in skip.comparators[0].elts} if skip is not None else None
+    ok = skipped == {"Type", "PropertyGroups", "Concatenated Data"}
+    chk(ok, f"H5Reader.fetch_children skips exactly {sorted(skipped) if skipped else skipped}", "H5Reader", "fetch_children", "child containers skipped changed", rc.where,
+        "a child container (Data / Groups / Objects) is no longer listed: those children vanish on re-open")
+    asg = next((a for a in ast.walk(rc.node) if isinstance(a, ast.Assign) and isinstance(a.targets[0], ast.Subscript) and unparse(a.targets[0].value) == "children"), None)
+    if asg is None:
+        raise AnalysisError("H5Reader.fetch_children: children[...] assignment not found")
+    for cont, want in (("Data", "Data"), ("Groups", "Group"), ("Objects", "ObjectBase")):
+        got = _fold_str(asg.value, cont)
+        ok = got in kinds and kinds.get(got) == want
+        chk(ok, f"H5Reader.fetch_children maps container {cont!r} to kind {got!r} -> load_entity class {kinds.get(got)}", "H5Reader", "fetch_children",
+            f"container {cont!r} maps to kind {got!r} ({kinds.get(got)})", rc.where, f"children found under {cont} are loaded as the wrong kind or not at all")
+    return res
+
+
+RULES = [rule_schema, rule_fetchkey, rule_lazy, rule_pgw, rule_own, rule_flow]
